@@ -17,7 +17,7 @@ pub fn calc_chunk_size(
         ChunkSize::Min(x) => {
             ResolvedChunkSize::Min(min_chunk_size(input_len, max_num_threads, x.into()))
         }
-        ChunkSize::Exact(x) => ResolvedChunkSize::Exact(x.into()),
+        ChunkSize::Exact(x) => ResolvedChunkSize::Exact(exact_chunk_size(input_len, x.into())),
     }
     .validate()
 }
@@ -66,6 +66,15 @@ fn auto_chunk_size(task: ParTask, input_len: Option<usize>, max_num_threads: usi
         None => 1,
         Some(0) => 1,
         Some(len) => find_chunk_size(task, len, max_num_threads),
+    }
+}
+
+fn exact_chunk_size(input_len: Option<usize>, chunk_size: usize) -> usize {
+    // a chunk never needs to be longer than the input; absurdly large sizes would otherwise
+    // overflow the position counter of the concurrent iterator after a few pulls
+    match input_len {
+        None => chunk_size,
+        Some(len) => chunk_size.min(len.max(1)),
     }
 }
 
